@@ -25,9 +25,15 @@ def work(task):
     return res
 
 
+NESTED = {'quick': (7, 8), 'thorough': (7, 9)}
+
+
 def run(tier, seed):
     t0 = time.time()
     tasks = []
+    # nested orthogonal states, larger charts: every triple of pairwise-orthogonal sources
+    for tree in skeletons(NESTED[tier][0], NESTED[tier][1], history=False, final=False, require='nested-orth'):
+        tasks.append((tree, 'asc', 0, '3o', False))
     for nmin, nmax, k, twin in PLAN[tier]:
         for tree in skeletons(nmin, nmax, history=False, final=False):
             for scheme in ('asc', 'desc'):
